@@ -4,8 +4,8 @@ Decides: the exchange probability and hand-over have the stated form; parent and
 follow a request/reply protocol in which nothing a process receives can depend on timing
 (blocking receives in a fixed order over FIFO pipes: a Kahn process network); every chain
 receives the same step count; workers hand back chains and terminate.
-Does not decide: that each chain is in at most one pair per round (the pairing functions
-are value-dependent list filters).
+Pair disjointness is decided for the recognised filter idioms (quantified membership tests); the
+candidate list construction itself (gaps of 1 or 2 levels) is not interpreted.
 """
 from __future__ import annotations
 import ast
@@ -19,7 +19,8 @@ from . import C03, C15
 
 REL = "inference/mcmc/parallel.py"
 FLOORS = {"task-exhaustive": 4, "reply-balance": 3, "kahn-discipline": 2, "swap-form": 3,
-          "exchange-pair": 3, "equal-steps": 3, "collect-shutdown": 3}
+          "exchange-pair": 3, "equal-steps": 3, "collect-shutdown": 3,
+          "pair-disjoint": 4}
 
 
 def worker_table(prog):
@@ -264,6 +265,9 @@ def run(prog, tier):
     c, sw = prog.method("ParallelTempering", "swap")
     obs.extend(_swap_form(prog, mi, pt, c, sw))
 
+    # ---------------------------------------------------------------- pair-disjoint
+    obs.extend(_pair_disjoint(prog))
+
     # ---------------------------------------------------------------- exchange-pair (shared with C03)
     obs.extend(C03._exchange(prog))
 
@@ -327,6 +331,110 @@ def run(prog, tier):
     return obs, FLOORS, meta
 
 
+def quantified_membership(node):
+    """Normalise `[not] any|all(<j [not] in B> for j in A)` to (negated, quantifier, inner_negated, A, B);
+    None when the expression has another shape."""
+    neg = False
+    while isinstance(node, ast.UnaryOp) and isinstance(node.op, ast.Not):
+        neg = not neg
+        node = node.operand
+    if not (isinstance(node, ast.Call) and isinstance(node.func, ast.Name) and node.func.id in ("any", "all")
+            and len(node.args) == 1 and isinstance(node.args[0], (ast.GeneratorExp, ast.ListComp))):
+        return None
+    g = node.args[0]
+    if len(g.generators) != 1 or g.generators[0].ifs or not isinstance(g.generators[0].target, ast.Name):
+        return None
+    var = g.generators[0].target.id
+    A = ast.unparse(g.generators[0].iter)
+    e = g.elt
+    ineg = False
+    while isinstance(e, ast.UnaryOp) and isinstance(e.op, ast.Not):
+        ineg = not ineg
+        e = e.operand
+    if not (isinstance(e, ast.Compare) and len(e.ops) == 1 and isinstance(e.ops[0], (ast.In, ast.NotIn))):
+        return None
+    if isinstance(e.ops[0], ast.NotIn):
+        ineg = not ineg
+    l, r = ast.unparse(e.left), ast.unparse(e.comparators[0])
+    if l == var:
+        B = r
+    elif r == var:
+        # `x in j` for j ranging over a collection of pairs: membership of x in some/all pairs
+        return (neg, node.func.id, ineg, A, "*" + l)
+    else:
+        return None
+    return (neg, node.func.id, ineg, A, B)
+
+
+def says_disjoint(q, X, Y):
+    """The normalised formula states that collections X and Y share no element."""
+    if q is None:
+        return False
+    neg, quant, ineg, A, B = q
+    if {A, B} != {X, Y}:
+        return False
+    # not exists j in A: j in B      |    forall j in A: j not in B
+    return (neg and quant == "any" and not ineg) or (not neg and quant == "all" and ineg)
+
+
+def _pair_disjoint(prog):
+    """Every proposed pair list consists of pairwise disjoint pairs (each chain in at most one pair)."""
+    out = []
+    c, tp = prog.method("ParallelTempering", "tight_pairs")
+    # (a) after drawing p, every candidate sharing a chain with p is discarded
+    loops = [w for w in ast.walk(tp) if isinstance(w, ast.While)]
+    ok, why = False, "sampling loop not found"
+    if len(loops) == 1:
+        w = loops[0]
+        src = {ast.unparse(s.targets[0]): s.value for s in w.body if isinstance(s, ast.Assign)}
+        chosen = [k for k, v in src.items() if isinstance(v, ast.Call) and ast.unparse(v.func) == "choice"]
+        filt = [v for k, v in src.items() if isinstance(v, ast.ListComp)]
+        if len(chosen) == 1 and len(filt) == 1 and len(filt[0].generators) == 1 and len(filt[0].generators[0].ifs) == 1:
+            g = filt[0].generators[0]
+            cand = ast.unparse(g.target)
+            pool = ast.unparse(g.iter)
+            same_pool = ast.unparse(src[chosen[0]].args[0]) == pool and ast.unparse(filt[0].elt) == cand
+            q = quantified_membership(g.ifs[0])
+            ok = same_pool and says_disjoint(q, chosen[0], cand)
+            why = f"candidates kept when `{ast.unparse(g.ifs[0])}` (chosen pair `{chosen[0]}`, candidate `{cand}`)"
+            appended = any(isinstance(n, ast.Call) and ast.unparse(n.func).endswith(".append")
+                           and ast.unparse(n.args[0]) == chosen[0] for n in ast.walk(w))
+            ok = ok and appended
+    out.append(struct_ob("pair-disjoint", qual(c, tp) + "[filter]", ok,
+                         "after a pair is drawn every remaining candidate that shares a chain with it must be discarded "
+                         "(kept iff disjoint from the drawn pair): " + why, REL, tp.lineno))
+    # (b) leftovers are the chains in no drawn pair, paired by even/odd positions
+    ok, why = False, "leftover pairing not found"
+    lo = [s for s in ast.walk(tp) if isinstance(s, ast.Assign) and ast.unparse(s.targets[0]) == "leftovers"]
+    if len(lo) == 1 and isinstance(lo[0].value, ast.ListComp) and len(lo[0].value.generators[0].ifs) == 1:
+        g = lo[0].value.generators[0]
+        q = quantified_membership(g.ifs[0])
+        i = ast.unparse(g.target)
+        c1 = ast.unparse(g.iter) == "range(self.N_chains)" and ast.unparse(lo[0].value.elt) == i
+        # not any(i in p for p in sample)
+        c2 = q is not None and q[0] and q[1] == "any" and not q[2] and q[3] == "sample" and q[4] == "*" + i
+        c3 = "zip(leftovers[::2], leftovers[1::2])" in ast.unparse(tp)
+        ok = c1 and c2 and c3
+        why = f"leftovers: `{ast.unparse(lo[0].value)}`; even/odd zip: {c3}"
+    out.append(struct_ob("pair-disjoint", qual(c, tp) + "[leftovers]", ok,
+                         "chains left unpaired must be exactly those in no drawn pair and be paired by even/odd positions: " + why,
+                         REL, tp.lineno))
+    # (c) uniform_pairs: even/odd positions of a shuffled arange
+    c2_, up = prog.method("ParallelTempering", "uniform_pairs")
+    txt = [ast.unparse(s) for s in up.body if not (isinstance(s, ast.Expr) and isinstance(s.value, ast.Constant))]
+    ok = txt == ["proposed_swaps = arange(self.N_chains)", "self.rng.shuffle(proposed_swaps)",
+                 "return [p for p in zip(proposed_swaps[::2], proposed_swaps[1::2])]"]
+    out.append(struct_ob("pair-disjoint", qual(c2_, up), ok,
+                         f"uniform pairs must be the even/odd positions of a shuffled arange(N_chains): {txt}", REL, up.lineno))
+    # (d) swap() takes its pairs from one of the checked generators, once, after the snapshot
+    c3_, sw = prog.method("ParallelTempering", "swap")
+    srcs = [ast.unparse(s.value) for s in sw.body if isinstance(s, ast.Assign) and ast.unparse(s.targets[0]) == "proposed_swaps"]
+    ok = len(srcs) == 1 and srcs[0] in ("self.tight_pairs()", "self.uniform_pairs()")
+    out.append(struct_ob("pair-disjoint", qual(c3_, sw) + "[source]", ok,
+                         f"swap must take its proposed pairs from tight_pairs() or uniform_pairs(): {srcs}", REL, sw.lineno))
+    return out
+
+
 def _swap_form(prog, mi, pt, c, sw):
     out = []
     loop = None
@@ -344,7 +452,14 @@ def _swap_form(prog, mi, pt, c, sw):
     ex.opaque_self_attrs = {"inv_temps", "connections", "rng", "attempted_swaps", "successful_swaps"}
     env = {}
     guard(lambda: ex.run_until(loop.body, env, test))
-    cmp_ = guard(lambda: ex.eval(test.test, env))
+    draw_cmp = test.test
+    shortcuts = []
+    if isinstance(test.test, ast.BoolOp) and isinstance(test.test.op, ast.Or):
+        with_draw = [v for v in test.test.values if "rng.random" in ast.unparse(v)]
+        if len(with_draw) == 1:
+            draw_cmp = with_draw[0]
+            shortcuts = [v for v in test.test.values if v is not draw_cmp]
+    cmp_ = guard(lambda: ex.eval(draw_cmp, env))
     ok, why = False, ""
     if isinstance(cmp_, CmpV) and cmp_.op in ("LtE", "Lt") and isinstance(cmp_.left, R) and isinstance(cmp_.right, R):
         u, A = cmp_.left, cmp_.right
@@ -359,6 +474,19 @@ def _swap_form(prog, mi, pt, c, sw):
         out.append(struct_ob("swap-form", qual(c, sw) + "[orientation]", is_draw,
                              f"the accept edge must be taken when uniform <= A; test is `{ast.unparse(test.test)}`",
                              REL, test.lineno))
+        for sc in shortcuts:
+            oks, whys = False, f"`{ast.unparse(sc)}` is not a comparison"
+            if isinstance(sc, ast.Compare) and len(sc.ops) == 1:
+                l = guard(lambda: ex.eval(sc.left, env))
+                r_ = guard(lambda: ex.eval(sc.comparators[0], env))
+                opn = type(sc.ops[0]).__name__
+                if isinstance(l, R) and isinstance(r_, R) and opn in ("Gt", "GtE", "Lt", "LtE"):
+                    d = (l - r_) if opn in ("Gt", "GtE") else (r_ - l)       # shortcut  <=>  d >= 0
+                    oks = d.eq(got) or d.eq(A - 1)
+                    whys = f"shortcut `{ast.unparse(sc)}` means {d} >= 0, but log A = {got}"
+            out.append(struct_ob("swap-form", qual(c, sw) + "[shortcut]", oks,
+                                 "an unconditional exchange must imply A >= 1 for every temperature ladder: " + whys,
+                                 REL, test.lineno))
     else:
         out.append(struct_ob("swap-form", qual(c, sw), False,
                              f"acceptance test `{ast.unparse(test.test)}` is not `uniform <= A`", REL, test.lineno))
